@@ -555,4 +555,38 @@ def selectRenderingItems (a : Adm) (given : Option Nat) (sel : List Nat) : Excep
     | .error e => .error e
     | .ok ign => flatMapE (itemsOfState a) (selectStates a given ign)
 
+/-! ### what `validate_structure` establishes about the pack/channel graph
+
+Decidable predicates on the document, evaluated by the C06 driver (`W` request) on the documents the
+harness generates and compared there with the real `_validate_pack_channel_multitree`; the C06 theorems
+take them as hypotheses (`Props/C06.lean`: `allocWF_of_multitree`). -/
+
+/-- a node of the audioPackFormat → audioPackFormat / audioChannelFormat reference graph. -/
+inductive PNode where
+  | pack (i : Nat)
+  | chan (i : Nat)
+  deriving DecidableEq, Repr
+
+/-- the nodes that `dfs(audioPackFormat p, {}, ())` of `validate._validate_pack_channel_multitree` visits,
+in visiting order (`get_children(node)` = `node.audioPackFormats + node.audioChannelFormats`), cut below
+depth `fuel`. -/
+def mtVisit (f : Formats) : Nat → Nat → List PNode
+  | 0, _ => []
+  | fuel + 1, p =>
+    .pack p :: ((f.pack p).subPacks.flatMap (mtVisit f fuel) ++ (f.pack p).channels.map .chan)
+
+/-- `_validate_pack_channel_multitree` passes: starting from no audioPackFormat is a node visited twice
+(the `paths` dict of the dfs holds the nodes visited so far; a second visit raises the loop or the
+"included more than once" exception).  Depth `len(audioPackFormats) + 1` shows every loop. -/
+def multitreeOK (f : Formats) : Bool :=
+  (List.range f.packs.length).all fun p => decide (mtVisit f (f.packs.length + 1) p).Nodup
+
+/-- every `AllocationPack` built by `get_wrapped_packs` has at least one channel.  NOT established by
+`validate_structure` (an audioPackFormat without channels and sub-packs passes it); `allocate_packs` never
+allocates such a pack. -/
+def wrappedNonempty (f : Formats) : Bool :=
+  match wrappedPacks f with
+  | .ok wps => wps.all fun w => !w.channels.isEmpty
+  | .error _ => true
+
 end Earverif.Adm
